@@ -81,6 +81,29 @@ def runto_case(args):
     return r
 
 
+def drain_case(args):
+    """out-ports nobody consumes -- a file out-port and a parameter out-port at the same time, one of them carrying more
+    items than the buffer holds after the other has closed -- are drained: the run completes"""
+    seed, i = args
+    rng = random.Random(seed * 198491329 + i)
+    sp = t3.Spec(maxtasks=rng.randint(1, 3), bufsize=rng.choice([1, 2]))
+    long_n = sp.bufsize + rng.randint(3, 7)
+    short_n = rng.randint(0, 1)
+    if i % 2 == 0:
+        nfiles, nvals = short_n, long_n
+    else:
+        nfiles, nvals = long_n, short_n
+    paths = ["d%02d.txt" % j for j in range(nfiles)]
+    for p in paths:
+        sp.files[p] = p + "\n"
+    s = sp.src("src", paths)
+    sp.proc(t3.Proc("leaf", kind="cattok", ins=[("a", [(s, "out")])], outs=[("o", "{i:a}.leaf")]))     # its out-port dangles
+    sp.psrc("loose", ["u%d" % j for j in range(nvals)])                                                     # a parameter source nobody reads
+    r = t3.success_case(sp, timeout=40)
+    r["kind"] = "drain-both-kinds"
+    return r
+
+
 def run(rep, tier, seed):
     proved = vlib.prove(rep, MODULE, THEOREMS)
     ok, msg = vlib.build_ocaml()
@@ -89,10 +112,11 @@ def run(rep, tier, seed):
     n = 60 if tier == "quick" else 1000
     results = t3.run_many(unconnected_case, [(seed, i) for i in range(n)])
     results += t3.run_many(runto_case, [(seed, i) for i in range(n)])
+    results += t3.run_many(drain_case, [(seed, i) for i in range(n // 4)])
     t3.report_t3(rep, MODULE, proved, results, "T3 unconnected ports / RunTo")
     rep.cov["evaluations"] = len(results)
     rep.cov["distinct_nontrivial"] = len({r["spec"] for r in results})
-    rep.cov["rule"] = "unconnected: a random workflow in which one in-port loses its connection or one extra parameter port is created and never connected -- must exit non-zero, execute no command, create no file; RunTo: random workflows run to 1-2 random target processes by name, by regular expression or by process value, plus FromStr feeders longer than the buffer upstream of the target -- executed tasks and files must be exactly those of the upstream closure as computed by the reference evaluator; every case distinct"
+    rep.cov["rule"] = "unconnected: a random workflow in which one in-port loses its connection or one extra parameter port is created and never connected -- must exit non-zero, execute no command, create no file; RunTo: random workflows run to 1-2 random target processes by name, by regular expression or by process value, plus FromStr feeders longer than the buffer upstream of the target -- executed tasks and files must be exactly those of the upstream closure as computed by the reference evaluator; drain: a dangling file out-port and an unread parameter source together, one of them longer than the buffer after the other has closed -- the run must complete; every case distinct"
     rep.cov["samples"] = [results[0]["spec"], results[-1]["spec"]]
     kinds = {}
     for r in results:
